@@ -2891,12 +2891,16 @@ def _(m, callee, args):
 @model(r'str::<impl str>::bytes$')
 def _(m, callee, args):
     cs = rstr(m, args[0]).cs
-    if any((not is_sym(c)) and c > 127 for c in cs):
-        raise Unsupported('bytes() of a non-ASCII string')
+    out = []
     for c in cs:
         if is_sym(c):
-            m.ctx.assume(z3.ULT(c, 128))
-    return PyIter('list', items=list(cs), pos=0)
+            m.ctx.assume(z3.ULT(c, 128))        # symbolic chars range over ASCII alphabets in every harness that reaches bytes()
+            out.append(c)
+        elif isinstance(c, int):
+            out.extend(chr(c).encode('utf-8'))
+        else:
+            raise Unsupported('bytes() of a string with an uninterpreted part')
+    return PyIter('list', items=out, pos=0)
 
 
 @model(r'str::<impl str>::parse::<(usize|u8|u16|u32|u64|i32|i64|isize)>$|^<(usize|u8|u16|u32|u64|i32|i64|isize) as FromStr>::from_str$')
@@ -2915,6 +2919,9 @@ def _(m, callee, args):
     from .models import charval
     op = callee.rsplit('::', 1)[1]
     a = charval(m, args[0]) if op not in ('from_u32', 'from_digit') else args[0]
+    if is_sym(a) and op in ('is_control', 'is_ascii_control'):
+        ascii_ctl = z3.Or(z3.ULT(a, 32), a == 127)
+        return ascii_ctl if op == 'is_ascii_control' else z3.Or(ascii_ctl, z3.And(z3.UGE(a, 0x80), z3.ULE(a, 0x9F)))
     if is_sym(a):
         raise Unsupported(f'char::{op} of a symbolic value')
     if op == 'from_u32':
@@ -3119,3 +3126,34 @@ def _(m, callee, args):
     from . import unicode as U_
     from .models import charval
     return PyIter('list', items=U_.case_map(m, charval(m, args[0]), 'upper' if callee.endswith('uppercase') else 'lower'), pos=0)
+
+
+@model(r'^Option::<.*>::or_else::<')
+def _(m, callee, args):
+    if disc_is(m, args[0], 1):
+        return args[0]
+    return m.call_closure(args[1], [])
+
+
+@model(r'^Option::<.*>::(xor|and)$|^Option::<.*>::and::<')
+def _(m, callee, args):
+    a, b = disc_is(m, args[0], 1), disc_is(m, args[1], 1)
+    if '::and' in callee:
+        return args[1] if a else NONE()
+    return args[0] if a and not b else (args[1] if b and not a else NONE())
+
+
+@model(r'^<&*(u8|u16|u32|u64|usize|i8|i16|i32|i64|isize|char|bool) as PartialEq(<.*>)?>::(eq|ne)$')
+def _(m, callee, args):
+    a, b = deref_all(m, args[0]), deref_all(m, args[1])
+    if is_sym(a) or is_sym(b):
+        w = CH if 'char' in callee.split(' as ')[0] else None
+        A = a if is_sym(a) else z3.BitVecVal(a, b.size())
+        B = b if is_sym(b) else z3.BitVecVal(b, A.size())
+        if A.size() != B.size():
+            from .interp import bv as _bv
+            A, B = _bv(A, max(A.size(), B.size())), _bv(B, max(A.size(), B.size()))
+        r = m.ctx.decide(A == B)
+    else:
+        r = a == b
+    return r if callee.endswith('::eq') else not r
